@@ -1,4 +1,4 @@
 SPECIFICATION Spec
-CONSTANTS H = 24  LenAt = 4  RS = 256  MaxBody = 3  MaxMsg = 6  MaxParts = 3  Gen = TRUE
+CONSTANTS H = 24  LenAt = 4  RS = 256  MaxBody = 3  MaxMsg = 6  MaxCalls = 1  GenChunks = {}  MaxParts = 3  Gen = TRUE
 INVARIANT Emit
 CHECK_DEADLOCK FALSE
